@@ -711,13 +711,14 @@ Variable A : Type.
 Variable ops : app_ops A.
 Variable p : params.
 Variable n : nat.
-Variable Q : pid -> Prop.
+(* what may fire: a predicate on rules (for whole properties: fun r => rule_prop r <> PCxx) *)
+Variable Q : rule -> Prop.
 (* invariant: station, applications, PHY buffer, time of the last poll, monitor states *)
 Variable J : fdl -> list A -> bytes -> Z -> mon -> mon2 -> Prop.
 (* side condition on the states of the run *)
 Variable G : fdl -> Prop.
 
-Hypothesis HQ5 : Q PC05.
+Hypothesis HQ5 : Q R05_panic.
 
 Hypothesis J_api : forall a f apps buf tl m g f',
   J f apps buf tl m g -> api_result p a f = Ok f' -> G f' ->
@@ -726,13 +727,13 @@ Hypothesis J_api : forall a f apps buf tl m g f',
 Hypothesis J_poll : forall f apps buf tl m g now busy nb f' o apps' calls,
   J f apps buf tl m g -> tl < now -> time_ok now -> all_bytes nb ->
   poll ops f now (mkPhyIn busy (buf ++ nb)) apps = Ok (f', o, apps', calls) -> G f' ->
-  onlyp Q (snd (mon_poll p n m (poll_event now busy (buf ++ nb) f' o calls))) /\
-  onlyp Q (snd (mon_poll2 p n m g (poll_event now busy (buf ++ nb) f' o calls))) /\
+  (forall r, In r (snd (mon_poll p n m (poll_event now busy (buf ++ nb) f' o calls))) -> Q r) /\
+  (forall r, In r (snd (mon_poll2 p n m g (poll_event now busy (buf ++ nb) f' o calls))) -> Q r) /\
   J f' apps' (rx_left o) now (fst (mon_poll p n m (poll_event now busy (buf ++ nb) f' o calls)))
                              (fst (mon_poll2 p n m g (poll_event now busy (buf ++ nb) f' o calls))).
 
 Lemma monitor_from_panic i om la k r :
-  In (k, r) (monitor_from p n i om la [EPanic]) -> Q (rule_prop r).
+  In (k, r) (monitor_from p n i om la [EPanic]) -> Q r.
 Proof.
   cbn. destruct la as [[ | | | ]|]; cbn; intros H; try contradiction;
     destruct H as [H|[]]; injection H as _ <-; exact HQ5.
@@ -740,7 +741,7 @@ Qed.
 
 Theorem generic_sound : forall ins f apps buf tl m g i la,
   J f apps buf tl m g -> ins_ok tl ins -> run_ok A ops p G f apps buf ins ->
-  forall k r, In (k, r) (monitor_from p n i (Some (m, g)) la (model_events A ops p f apps buf ins)) -> Q (rule_prop r).
+  forall k r, In (k, r) (monitor_from p n i (Some (m, g)) la (model_events A ops p f apps buf ins)) -> Q r.
 Proof.
   induction ins as [|x ins IH]; intros f apps buf tl m g i la HJ Hok Hrun k r Hin; [contradiction|].
   destruct x as [a|now busy nb]; cbn [model_events] in Hin; cbn [run_ok] in Hrun.
@@ -770,7 +771,7 @@ Hypothesis J_init : forall f0 apps, fdl_new p = Ok f0 -> length apps = n -> G f0
   J f0 apps [] 0 (mon_reset (view_of f0) 0) mon2_reset.
 
 Theorem generic_sound_transcript apps ins : length apps = n -> ins_ok 0 ins -> transcript_ok A ops p G apps ins ->
-  forall k r, In (k, r) (monitor p n (model_transcript A ops p apps ins)) -> Q (rule_prop r).
+  forall k r, In (k, r) (monitor p n (model_transcript A ops p apps ins)) -> Q r.
 Proof.
   intros Hn Hok Hrun k r Hin. unfold monitor in Hin. destruct (builder_validb p); [|contradiction].
   unfold model_transcript in Hin. unfold transcript_ok in Hrun. pose proof J_init as Ji. destruct (fdl_new p) as [f0| |].
